@@ -85,7 +85,8 @@ def _funcprime(base, max_count, num_reserved, uint_max):
     Numba function used to determine the base of the log needed.
     """
     M = float64(max_count) - float64(num_reserved)
-    return uint_max * base ** (uint_max - num_reserved) - M
+    n = float64(uint_max - num_reserved)
+    return n * base ** (n - 1.0) - M
 
 
 @njit(float64(uint64, uint32, uint32))
@@ -112,7 +113,8 @@ def _find_base(max_count, num_reserved, uint_max):
     Raises
     ------
     ValueError
-        If the base is 1.0
+        If the base is 1.0 or Newton's method did not converge to a base for which the
+        largest counter corresponds to max_count
 
     """
     base = float64(np.exp(np.log(max_count) / (uint_max - num_reserved)))
@@ -123,6 +125,12 @@ def _find_base(max_count, num_reserved, uint_max):
         )
     if base < 1.000000001:
         raise ValueError("Calculated base is 1.0. Raise max_count")
+    # _func(base) / (base - 1) is how far the largest counter is from max_count
+    if not (
+        abs(_func(base, max_count, num_reserved, uint_max))
+        <= 1e-6 * float64(max_count) * (base - 1.0)
+    ):
+        raise ValueError("Failed to find the base. Lower num_reserved")
     return base
 
 
